@@ -335,8 +335,10 @@ func (s *ItemSpec) TextWith(f *Fields) string {
 		return string(s.Str)
 	case "nilsafe":
 		return "<nil NilSafe>"
-	case "cell", "cellptr":
+	case "cell":
 		return s.Inner.Text()
+	case "cellptr":
+		return s.Inner.TextWith(f) // the cell pointed at follows its item (see Make)
 	case "anonG", "anonPS", "anonSE", "tplhtml", "tpljs", "tplurl", "tplattr", "jsonnumber":
 		return string(s.Str) // promoted GoString / String (String before Error); named string types read as their value
 	case "aggslice", "aggstringer", "aggarrmap":
